@@ -50,9 +50,11 @@ class C15:
                 self.apis[v] = None
         # every opcode number of the version: 0..255 plus the pseudo-instructions (>= 256) that 3.12+ list in opmap
         self.all_ops = {}
+        self.takes_arg = {}
         for v in VERSIONS:
             ref = ctx.pool.ref(v).call("opcode_tables")
             self.all_ops[v] = sorted(set(range(256)) | set(ref["opmap"].values()))
+            self.takes_arg[v] = set(ref["hasarg"]) if "hasarg" in ref else set(range(ref["HAVE_ARGUMENT"], 256))
 
     def strategy(self, ctx):
         return st.tuples(st.sampled_from(VERSIONS), st.one_of(st.integers(0, 255), st.integers(256, 270)),
@@ -145,6 +147,11 @@ class C15:
                 got = xse(op, opc)
             except Exception as e:
                 got = "raised %s" % type(e).__name__
+            if got == noarg and op not in self.takes_arg[v]:
+                try:
+                    got = xse(op, opc, None)            # the operand an operand-less instruction carries: Instruction.arg is None
+                except Exception as e:
+                    got = "raised %s with operand None" % type(e).__name__
             if got != noarg:
                 res.fail("C15|%s|%s|no-operand" % (v, name), "%s %s: CPython stack_effect(%d) = %s, xdis %s" % (v, name, op, noarg, got))
         if bad is not None:
